@@ -715,6 +715,31 @@ func genLookup(g *h.Gen) {
 				ops = append(ops, addOp())
 			}
 		}
+		if k >= 88 {
+			// a synthetic family: a random subset of zz, zz-color, zz-88color, zz-256color is registered (distinguishable
+			// colour counts), then variants of zz are looked up — exercises the sibling preference orders
+			ops = ops[:0]
+			if r.Chance(50) {
+				ops = append(ops, envOp())
+			}
+			fb := h.Pick(r, []string{"zz", "zq-1", "xterm", "eterm"})
+			cols := map[string]int{"": 2, "-color": 8, "-88color": 88, "-256color": 255}
+			any := false
+			for _, sx := range []string{"", "-color", "-88color", "-256color"} {
+				if r.Chance(55) {
+					ops = append(ops, fmt.Sprintf("A %s - %d %s", lkTok(fb+sx), cols[sx], h.Pick(r, []string{"n", "n", "n", "t", "r", "f"})))
+					any = true
+				}
+			}
+			if !any {
+				ops = append(ops, fmt.Sprintf("A %s - 8 n", lkTok(fb+"-color")))
+			}
+			for j := r.Range(1, 3); j > 0; j-- {
+				ops = append(ops, "L "+lkTok(fb+h.Pick(r, []string{"-256color", "-truecolor", "-truecolor", "-256color-truecolor", "", "-color", "-88color"})))
+			}
+			g.Emit("lookup %s", strings.Join(ops, "; "))
+			continue
+		}
 		nl := 2
 		if r.Chance(25) {
 			nl = r.Range(3, 5)
